@@ -249,3 +249,358 @@ Proof.
   exists s, c. split; [reflexivity|]. split; [vm_compute in E; injection E as <- _; reflexivity|].
   exact (C16_read_back_wf _ _ _ _ _ _ _ Hn E).
 Qed.
+
+(* ================================================================================================== *)
+(* added from Properties/C16_add.v (2026-10-01)                                              *)
+(* ================================================================================================== *)
+(* C16, continued: the composition through RE-PARSING.  What DictWriter.write leaves in the target, read back with
+   DictReader.read (includes and comments on, as DictWriter itself reads the target in append mode), for one write and
+   for any number of writes.  Model functions: Reader.write_text / writer_run (the write step, text level) and
+   Reader.read_plain (the read).  The mode is a bool in the model (append / not append): the Python code tests
+   mode == 'a' only, so every other mode string, recognised or not, takes the overwrite branch (wiring fact of
+   DictWriter.write, not a theorem here). *)
+From Coq Require Import String.
+From Coq Require Import NArith ZArith List Bool Lia.
+From DictIO Require Import Chars Str Value Scalar KeyPath SDict Layout Lexer TokParser Reader TreeSpec NativeSpec E2ESpec MiscSpec.
+From DictIO Require Import SDictProofs WriteProofs E2EFullProofs RereadPlain RereadTree AppendSeq.
+Import ListNotations.
+
+(* three source dicts (leaves still strings, as a caller passes them): overlapping nested dicts, a string leaf with
+   blanks, leaves that are re-typed (007 -> 7, 2.5, true), an apostrophe, a list *)
+Module C16_sq.
+  Definition ks (s : string) : key := KS (of_string s).
+  Definition sv (s : string) : tree := Leaf (SStr (of_string s)).
+  Definition pth := of_string "/r/out.dict".
+  Definition d1 : list (key * tree) :=
+    [(ks "a", sv "007"); (ks "sub", Dict [(ks "x", sv "two words"); (ks "n", Dict [(ks "p", sv "1")])])].
+  Definition d2 : list (key * tree) :=
+    [(ks "a", sv "9"); (ks "sub", Dict [(ks "x", sv "other"); (ks "y", sv "2.5"); (ks "n", Dict [(ks "q", sv "it's")])]); (ks "b", sv "true")].
+  Definition d3 : list (key * tree) :=
+    [(ks "sub", Dict [(ks "n", Dict [(ks "p", sv "5"); (ks "r", sv "x y")]); (ks "z", Lst [sv "1"; sv "a b"])]); (ks "c", sv "last")].
+  Definition t1 : str := of_string "a                             7;
+sub
+{
+    x                         'two words';
+    n
+    {
+        p                     1;
+    }
+}
+".
+End C16_sq.
+
+(* (1) After an overwrite -- or a first write to a target that does not exist, in either mode -- of a dict of the writer
+   domain, the file read back is EXACTLY the new dict, every leaf as the reader classifies its written form
+   (classified d = written_value on every leaf of parse_values d): no comment, no include, no expression, whatever the
+   target held before.  Domain: parse_values succeeds (pv_ok); the typed dict has unique keys, simple keys, writable
+   leaves, quoted literals at most ten keys deep (wdom: the side conditions of C01_roundtrip); at most a million quoted
+   literals (six-digit placeholders). *)
+Theorem C16_overwrite_reads_back : forall path existing d,
+  pv_ok d = true -> wdom (typed d) = true -> (Z.of_nat (nq (Dict (typed d))) <= 1000000)%Z ->
+  exists txt c,
+    write_text false path existing false d = Ok txt /\ write_text false path None true d = Ok txt /\
+    txt = to_string_plain (typed d) /\
+    read_plain [(norm_path path, FNative txt)] path true true (-1)%Z = Ok (mkSD (classified d) [] [] [] [], c).
+Proof. exact overwrite_reads_back. Qed.
+Print Assumptions C16_overwrite_reads_back.
+
+Example C16_overwrite_reads_back_nonvacuous :
+  pv_ok C16_sq.d1 = true /\ wdom (typed C16_sq.d1) = true /\ (Z.of_nat (nq (Dict (typed C16_sq.d1))) <= 1000000)%Z /\
+  classified C16_sq.d1 = [(C16_sq.ks "a", Leaf (SInt 7));
+                          (C16_sq.ks "sub", Dict [(C16_sq.ks "x", C16_sq.sv "two words"); (C16_sq.ks "n", Dict [(C16_sq.ks "p", Leaf (SInt 1))])])] /\
+  exists c,
+    write_text false C16_sq.pth (Some (of_string "{{{ garbage")) false C16_sq.d1 = Ok C16_sq.t1 /\
+    write_text false C16_sq.pth None true C16_sq.d1 = Ok C16_sq.t1 /\
+    read_plain [(norm_path C16_sq.pth, FNative C16_sq.t1)] C16_sq.pth true true (-1)%Z = Ok (mkSD (classified C16_sq.d1) [] [] [] [], c).
+Proof.
+  assert (H0 : pv_ok C16_sq.d1 = true) by (vm_compute; reflexivity).
+  assert (H1 : wdom (typed C16_sq.d1) = true) by (vm_compute; reflexivity).
+  assert (H2 : (Z.of_nat (nq (Dict (typed C16_sq.d1))) <= 1000000)%Z) by (vm_compute; discriminate).
+  refine (conj H0 (conj H1 (conj H2 (conj _ _)))); [vm_compute; reflexivity|].
+  destruct (C16_overwrite_reads_back C16_sq.pth (Some (of_string "{{{ garbage")) C16_sq.d1 H0 H1 H2) as (txt & c & W1 & W2 & Et & Er).
+  assert (E : txt = C16_sq.t1) by (rewrite Et; vm_compute; reflexivity). subst txt.
+  exists c. exact (conj W1 (conj W2 Er)).
+Qed.
+
+(* the entry AB000001 = 'AB000001', excluded from the append theorems below (C16_self_named_finding), is no obstacle here *)
+Example C16_overwrite_reads_back_self_named :
+  let d := [(C16_sq.ks "AB000001", C16_sq.sv "AB000001")] in
+  pv_ok d = true /\ wdom (typed d) = true /\ writable_src d = false /\
+  exists txt c, write_text false C16_sq.pth None true d = Ok txt /\
+    read_plain [(norm_path C16_sq.pth, FNative txt)] C16_sq.pth true true (-1)%Z = Ok (mkSD d [] [] [] [], c).
+Proof.
+  intros d. assert (H0 : pv_ok d = true) by (vm_compute; reflexivity). assert (H1 : wdom (typed d) = true) by (vm_compute; reflexivity).
+  refine (conj H0 (conj H1 (conj _ _))); [vm_compute; reflexivity|].
+  destruct (C16_overwrite_reads_back C16_sq.pth None d H0 H1 ltac:(vm_compute; discriminate)) as (txt & c & _ & W & _ & Er).
+  exists txt, c. split; [exact W|]. assert (E : classified d = d) by (vm_compute; reflexivity). rewrite E in Er. exact Er.
+Qed.
+
+(* (2) Any number of writes in append mode onto a target that does not exist at first: every write succeeds, and the data
+   read back after the last one is the fold of the first-wins recursive merge (TreeSpec.merge_spec, the specification
+   of SDict.merge) over the dicts as the reader classifies them -- behind the entry of the default header block comment
+   (BLOCKCOMMENT000000, the only comment: st_of true) from the second write on, which is when DictWriter first formats
+   an SDict instead of the plain source dict.  Proved by induction over the list: each read-back state is again in the
+   writer domain and a fixed point of reading back (C03), so that the next step applies.
+   Domain, per dict (writable_src): as for C16_overwrite_reads_back, and
+     no_self_named (classified d)   no top-level entry whose value is a string equal to its own key, the key having the
+                                    shape of a placeholder (upper case letters + six digits): SDict.merge REPLACES such
+                                    an entry of the existing file by the new value (C16_self_named_finding below);
+   over the whole list: at most a million quoted literals in all (nq_total).
+   The domain is closed under the merge (unique keys, simple keys, writable leaves, quoted literals at most ten keys
+   deep, no self-named entry; the numbers of quoted literals add up), so nothing else is asked of the list. *)
+Theorem C16_append_sequence : forall path w ds,
+  w_get path w = None -> ds <> [] ->
+  forallb writable_src ds = true ->
+  (Z.of_nat (nq_total ds) <= 1000000)%Z ->
+  let F := fold_left merge_spec (map classified ds) [] in
+  exists txt c,
+    w_get path (writer_run false w path (appends ds)) = Some txt /\
+    read_plain [(norm_path path, FNative txt)] path true true (-1)%Z = Ok (st_of (Nat.ltb 1 (length ds)) F, c) /\
+    wdom F = true /\ reread_plain F = F.
+Proof. exact append_sequence_reads_back. Qed.
+Print Assumptions C16_append_sequence.
+
+Module C16_sq2.
+  Import C16_sq.
+  Definition t3 : str := native_header ++ of_string "a                             7;
+sub
+{
+    x                         'two words';
+    n
+    {
+        p                     1;
+        q                     ""it's"";
+        r                     'x y';
+    }
+    y                         2.5;
+    z
+    (
+        1                 'a b'
+    );
+}
+b                             true;
+c                             last;
+".
+  (* the first value of a, sub.x and sub.n.p wins; sub.n.q, sub.y, b come from d2; sub.n.r, sub.z, c from d3 *)
+  Definition F3 : list (key * tree) :=
+    [(ks "a", Leaf (SInt 7));
+     (ks "sub", Dict [(ks "x", sv "two words");
+                      (ks "n", Dict [(ks "p", Leaf (SInt 1)); (ks "q", sv "it's"); (ks "r", sv "x y")]);
+                      (ks "y", Leaf (SFloat (of_string "2.5")));
+                      (ks "z", Lst [Leaf (SInt 1); sv "a b"])]);
+     (ks "b", Leaf (SBool true)); (ks "c", sv "last")].
+End C16_sq2.
+
+Example C16_append_sequence_nonvacuous :
+  let ds := [C16_sq.d1; C16_sq.d2; C16_sq.d3] in
+  forallb writable_src ds = true /\ (Z.of_nat (nq_total ds) <= 1000000)%Z /\
+  fold_left merge_spec (map classified ds) [] = C16_sq2.F3 /\
+  exists c,
+    w_get C16_sq.pth (writer_run false [] C16_sq.pth (appends ds)) = Some C16_sq2.t3 /\
+    read_plain [(norm_path C16_sq.pth, FNative C16_sq2.t3)] C16_sq.pth true true (-1)%Z = Ok (st_hdr C16_sq2.F3, c) /\
+    sd_data (st_hdr C16_sq2.F3) = (KS (of_string "BLOCKCOMMENT000000"), Leaf (SStr (of_string "BLOCKCOMMENT000000"))) :: C16_sq2.F3.
+Proof.
+  intros ds.
+  assert (H1 : forallb writable_src ds = true) by (vm_compute; reflexivity).
+  assert (H2 : (Z.of_nat (nq_total ds) <= 1000000)%Z) by (vm_compute; discriminate).
+  assert (H3 : fold_left merge_spec (map classified ds) [] = C16_sq2.F3) by (vm_compute; reflexivity).
+  refine (conj H1 (conj H2 (conj H3 _))).
+  destruct (C16_append_sequence C16_sq.pth [] ds eq_refl ltac:(discriminate) H1 H2) as (txt & c & E1 & E2 & _).
+  rewrite H3 in E2. change (Nat.ltb 1 (length ds)) with true in E2. cbn [st_of] in E2.
+  assert (Et : txt = C16_sq2.t3).
+  { assert (Ew : w_get C16_sq.pth (writer_run false [] C16_sq.pth (appends ds)) = Some C16_sq2.t3) by (vm_compute; reflexivity).
+    rewrite Ew in E1. injection E1 as <-. reflexivity. }
+  subst txt. exists c. refine (conj E1 (conj E2 _)). vm_compute. reflexivity.
+Qed.
+
+(* (2), mixed sequences: append and overwrite steps in any order.  The file read back after the last write holds exactly
+   the state of the specification fold MiscSpec.spec_writes over the classified dicts: an overwrite (and the first
+   write) restarts the fold with the new dict, an append merges first-wins into it.  hdr_run says whether the header
+   entry is there (exactly when the last write was an append onto an existing file). *)
+Theorem C16_write_sequence : forall path w ops,
+  w_get path w = None -> ops <> [] ->
+  forallb (fun op => writable_src (snd op)) ops = true ->
+  (Z.of_nat (nq_total (map snd ops)) <= 1000000)%Z ->
+  exists txt F c,
+    w_get path (writer_run false w path ops) = Some txt /\
+    spec_writes (spec_ops ops) None = Some F /\
+    read_plain [(norm_path path, FNative txt)] path true true (-1)%Z = Ok (st_of (hdr_run ops None false) F, c) /\
+    wdom F = true /\ reread_plain F = F.
+Proof. exact write_sequence_reads_back. Qed.
+Print Assumptions C16_write_sequence.
+
+(* non-vacuity: append d1, append d2, OVERWRITE with d3, append d1: d3 wins over d1 where both have a leaf (sub.n.p = 5),
+   nothing of d2 is left, and d1 adds a, sub.x *)
+Example C16_write_sequence_nonvacuous :
+  let ops := [(true, C16_sq.d1); (true, C16_sq.d2); (false, C16_sq.d3); (true, C16_sq.d1)] in
+  forallb (fun op => writable_src (snd op)) ops = true /\ (Z.of_nat (nq_total (map snd ops)) <= 1000000)%Z /\
+  exists txt F c,
+    w_get C16_sq.pth (writer_run false [] C16_sq.pth ops) = Some txt /\
+    spec_writes (spec_ops ops) None = Some F /\
+    F = merge_spec (classified C16_sq.d3) (classified C16_sq.d1) /\
+    read_plain [(norm_path C16_sq.pth, FNative txt)] C16_sq.pth true true (-1)%Z = Ok (st_hdr F, c) /\
+    get_dpath (Dict F) [C16_sq.ks "sub"; C16_sq.ks "n"; C16_sq.ks "p"] = Some (Leaf (SInt 5)) /\
+    get_dpath (Dict F) [C16_sq.ks "a"] = Some (Leaf (SInt 7)) /\
+    get_dpath (Dict F) [C16_sq.ks "b"] = None.
+Proof.
+  intros ops.
+  assert (H1 : forallb (fun op => writable_src (snd op)) ops = true) by (vm_compute; reflexivity).
+  assert (H2 : (Z.of_nat (nq_total (map snd ops)) <= 1000000)%Z) by (vm_compute; discriminate).
+  refine (conj H1 (conj H2 _)).
+  destruct (C16_write_sequence C16_sq.pth [] ops eq_refl ltac:(discriminate) H1 H2) as (txt & F & c & E1 & E2 & E3 & _).
+  assert (EF : F = merge_spec (classified C16_sq.d3) (classified C16_sq.d1)).
+  { assert (E : spec_writes (spec_ops ops) None = Some (merge_spec (classified C16_sq.d3) (classified C16_sq.d1))) by reflexivity.
+    rewrite E in E2. injection E2 as <-. reflexivity. }
+  change (hdr_run ops None false) with true in E3. cbn [st_of] in E3.
+  exists txt, F, c. refine (conj E1 (conj E2 (conj EF (conj E3 _)))). rewrite EF. vm_compute. repeat split; reflexivity.
+Qed.
+
+(* (3) In the words of the property.  Appends ds1 (at least one write), then d, then ds2, onto a target that does not
+   exist at first; s1 and s3 are the states read back after ds1 and after the whole sequence:
+   - "leaves every key path already in the file with its value": every leaf path of s1 is a leaf path of s3 with the same
+     value -- for ANY later step, ds2 being arbitrary (monotone in the number of writes);
+   - "adds every key path of the new dict that was absent": a leaf path of d (classified) that is absent from s1
+     (addable: walking down the path through dicts, a key is missing) is a leaf path of s3 with the value of d. *)
+Theorem C16_append_sequence_monotone : forall path w ds1 d ds2,
+  w_get path w = None -> ds1 <> [] ->
+  forallb writable_src (ds1 ++ d :: ds2) = true ->
+  (Z.of_nat (nq_total (ds1 ++ d :: ds2)) <= 1000000)%Z ->
+  exists txt1 txt3 s1 s3 c1 c3,
+    w_get path (writer_run false w path (appends ds1)) = Some txt1 /\
+    w_get path (writer_run false (writer_run false w path (appends ds1)) path (appends (d :: ds2))) = Some txt3 /\
+    read_plain [(norm_path path, FNative txt1)] path true true (-1)%Z = Ok (s1, c1) /\
+    read_plain [(norm_path path, FNative txt3)] path true true (-1)%Z = Ok (s3, c3) /\
+    (forall p v, get_dpath (Dict (sd_data s1)) p = Some (Leaf v) -> get_dpath (Dict (sd_data s3)) p = Some (Leaf v)) /\
+    (forall p v, get_dpath (Dict (classified d)) p = Some (Leaf v) -> addable (Dict (sd_data s1)) p = true ->
+                 get_dpath (Dict (sd_data s3)) p = Some (Leaf v)).
+Proof. exact append_sequence_monotone. Qed.
+Print Assumptions C16_append_sequence_monotone.
+
+(* non-vacuity: d1, then d2, then d3.  sub.x of d1 survives both later writes (d2 has another value for it); sub.y and
+   b of d2 are absent after d1 and are there at the end; a of d2 is NOT absent (addable false) and a keeps the value of d1 *)
+Example C16_append_sequence_monotone_nonvacuous :
+  let sub_x := [C16_sq.ks "sub"; C16_sq.ks "x"] in let sub_y := [C16_sq.ks "sub"; C16_sq.ks "y"] in
+  forallb writable_src ([C16_sq.d1] ++ C16_sq.d2 :: [C16_sq.d3]) = true /\
+  (Z.of_nat (nq_total ([C16_sq.d1] ++ C16_sq.d2 :: [C16_sq.d3])) <= 1000000)%Z /\
+  exists s1 s3,
+    sd_data s1 = classified C16_sq.d1 /\
+    get_dpath (Dict (sd_data s1)) sub_x = Some (C16_sq.sv "two words") /\
+    get_dpath (Dict (classified C16_sq.d2)) sub_x = Some (C16_sq.sv "other") /\
+    get_dpath (Dict (classified C16_sq.d2)) sub_y = Some (Leaf (SFloat (of_string "2.5"))) /\
+    addable (Dict (sd_data s1)) sub_y = true /\ addable (Dict (sd_data s1)) [C16_sq.ks "b"] = true /\
+    addable (Dict (sd_data s1)) [C16_sq.ks "a"] = false /\
+    get_dpath (Dict (sd_data s3)) sub_x = Some (C16_sq.sv "two words") /\
+    get_dpath (Dict (sd_data s3)) sub_y = Some (Leaf (SFloat (of_string "2.5"))) /\
+    get_dpath (Dict (sd_data s3)) [C16_sq.ks "b"] = Some (Leaf (SBool true)) /\
+    get_dpath (Dict (sd_data s3)) [C16_sq.ks "a"] = Some (Leaf (SInt 7)).
+Proof.
+  intros sub_x sub_y.
+  assert (H1 : forallb writable_src ([C16_sq.d1] ++ C16_sq.d2 :: [C16_sq.d3]) = true) by (vm_compute; reflexivity).
+  assert (H2 : (Z.of_nat (nq_total ([C16_sq.d1] ++ C16_sq.d2 :: [C16_sq.d3])) <= 1000000)%Z) by (vm_compute; discriminate).
+  refine (conj H1 (conj H2 _)).
+  destruct (C16_append_sequence_monotone C16_sq.pth [] [C16_sq.d1] C16_sq.d2 [C16_sq.d3] eq_refl ltac:(discriminate) H1 H2)
+    as (txt1 & txt3 & s1 & s3 & c1 & c3 & E1 & E3 & R1 & R3 & Hkeep & Hadd).
+  assert (Es1 : sd_data s1 = classified C16_sq.d1).
+  { assert (Ew : w_get C16_sq.pth (writer_run false [] C16_sq.pth (appends [C16_sq.d1])) = Some C16_sq.t1) by (vm_compute; reflexivity).
+    rewrite Ew in E1. injection E1 as <-.
+    assert (Er : exists c, read_plain [(norm_path C16_sq.pth, FNative C16_sq.t1)] C16_sq.pth true true (-1)%Z = Ok (st_plain (classified C16_sq.d1), c))
+      by (eexists; vm_compute; reflexivity).
+    destruct Er as [c Er]. rewrite Er in R1. injection R1 as <- _. reflexivity. }
+  exists s1, s3. split; [exact Es1|].
+  assert (G1 : get_dpath (Dict (sd_data s1)) sub_x = Some (C16_sq.sv "two words")) by (rewrite Es1; vm_compute; reflexivity).
+  assert (G2 : get_dpath (Dict (classified C16_sq.d2)) sub_y = Some (Leaf (SFloat (of_string "2.5")))) by (vm_compute; reflexivity).
+  assert (G3 : get_dpath (Dict (classified C16_sq.d2)) [C16_sq.ks "b"] = Some (Leaf (SBool true))) by (vm_compute; reflexivity).
+  assert (G4 : get_dpath (Dict (sd_data s1)) [C16_sq.ks "a"] = Some (Leaf (SInt 7))) by (rewrite Es1; vm_compute; reflexivity).
+  assert (A1 : addable (Dict (sd_data s1)) sub_y = true) by (rewrite Es1; vm_compute; reflexivity).
+  assert (A2 : addable (Dict (sd_data s1)) [C16_sq.ks "b"] = true) by (rewrite Es1; vm_compute; reflexivity).
+  assert (A3 : addable (Dict (sd_data s1)) [C16_sq.ks "a"] = false) by (rewrite Es1; vm_compute; reflexivity).
+  pose proof (Hkeep _ _ G1) as K1. pose proof (Hadd _ _ G2 A1) as K2. pose proof (Hadd _ _ G3 A2) as K3. pose proof (Hkeep _ _ G4) as K4.
+  refine (conj G1 (conj _ (conj G2 (conj A1 (conj A2 (conj A3 (conj K1 (conj K2 (conj K3 K4))))))))).
+  vm_compute. reflexivity.
+Qed.
+
+(* FINDING (forces no_self_named): an entry of the existing file whose value spells its own key, the key having the shape
+   of a placeholder (upper case letters and six digits), does NOT keep its value in append mode: SDict.merge takes it for
+   a left-over placeholder and replaces it by the value of the new dict.  Same behaviour of the library (checked:
+   DictWriter.write({'AB000001': 'AB000001', 'k': 'k'}, f); DictWriter.write({'AB000001': 5, 'k': 6}, f); the file then
+   holds AB000001 5; k k;).  Everything else of the domain holds for both dicts; the lower-case / short key k, equally
+   self-named, is kept. *)
+Example C16_self_named_finding :
+  let d0 := [(C16_sq.ks "AB000001", C16_sq.sv "AB000001"); (C16_sq.ks "k", C16_sq.sv "k")] in
+  let d' := [(C16_sq.ks "AB000001", C16_sq.sv "5"); (C16_sq.ks "k", C16_sq.sv "6")] in
+  pv_ok d0 && wdom (typed d0) = true /\ no_self_named (classified d0) = false /\ writable_src d' = true /\
+  get_dpath (Dict (fold_left merge_spec (map classified [d0; d']) [])) [C16_sq.ks "AB000001"] = Some (C16_sq.sv "AB000001") /\
+  exists txt s c,
+    w_get C16_sq.pth (writer_run false [] C16_sq.pth (appends [d0; d'])) = Some txt /\
+    read_plain [(norm_path C16_sq.pth, FNative txt)] C16_sq.pth true true (-1)%Z = Ok (s, c) /\
+    get_dpath (Dict (sd_data s)) [C16_sq.ks "AB000001"] = Some (Leaf (SInt 5)) /\
+    get_dpath (Dict (sd_data s)) [C16_sq.ks "k"] = Some (C16_sq.sv "k").
+Proof.
+  intros d0 d'. split; [vm_compute; reflexivity|]. split; [vm_compute; reflexivity|]. split; [vm_compute; reflexivity|].
+  split; [vm_compute; reflexivity|].
+  set (txt := match w_get C16_sq.pth (writer_run false [] C16_sq.pth (appends [d0; d'])) with Some t => t | None => [] end).
+  set (r := read_plain [(norm_path C16_sq.pth, FNative txt)] C16_sq.pth true true (-1)%Z).
+  exists txt, (match r with Ok sc => fst sc | Raise _ => sd_empty end), (match r with Ok sc => snd sc | Raise _ => 0%Z end).
+  split; [vm_compute; reflexivity|]. split; [vm_compute; reflexivity|]. split; vm_compute; reflexivity.
+Qed.
+
+(* (2), when the target exists with ANY content (not even parseable): a sequence that begins with an overwrite *)
+Theorem C16_write_sequence_after_overwrite : forall path w d ops,
+  forallb (fun op => writable_src (snd op)) ((false, d) :: ops) = true ->
+  (Z.of_nat (nq_total (map snd ((false, d) :: ops))) <= 1000000)%Z ->
+  exists txt F c,
+    w_get path (writer_run false w path ((false, d) :: ops)) = Some txt /\
+    spec_writes (spec_ops ops) (Some (classified d)) = Some F /\
+    read_plain [(norm_path path, FNative txt)] path true true (-1)%Z = Ok (st_of (hdr_run ops (Some []) false) F, c) /\
+    wdom F = true /\ reread_plain F = F.
+Proof. exact write_sequence_after_overwrite. Qed.
+Print Assumptions C16_write_sequence_after_overwrite.
+
+Example C16_write_sequence_after_overwrite_nonvacuous :
+  let w := [(C16_sq.pth, of_string "{{{ garbage")] in let ops := [(true, C16_sq.d2)] in
+  forallb (fun op => writable_src (snd op)) ((false, C16_sq.d1) :: ops) = true /\
+  (Z.of_nat (nq_total (map snd ((false, C16_sq.d1) :: ops))) <= 1000000)%Z /\
+  exists txt c,
+    w_get C16_sq.pth (writer_run false w C16_sq.pth ((false, C16_sq.d1) :: ops)) = Some txt /\
+    read_plain [(norm_path C16_sq.pth, FNative txt)] C16_sq.pth true true (-1)%Z =
+      Ok (st_hdr (merge_spec (classified C16_sq.d1) (classified C16_sq.d2)), c).
+Proof.
+  intros w ops.
+  assert (H1 : forallb (fun op => writable_src (snd op)) ((false, C16_sq.d1) :: ops) = true) by (vm_compute; reflexivity).
+  assert (H2 : (Z.of_nat (nq_total (map snd ((false, C16_sq.d1) :: ops))) <= 1000000)%Z) by (vm_compute; discriminate).
+  refine (conj H1 (conj H2 _)).
+  destruct (C16_write_sequence_after_overwrite C16_sq.pth w C16_sq.d1 ops H1 H2) as (txt & F & c & E1 & E2 & E3 & _).
+  assert (E : spec_writes (spec_ops ops) (Some (classified C16_sq.d1)) = Some (merge_spec (classified C16_sq.d1) (classified C16_sq.d2))) by reflexivity.
+  rewrite E in E2. injection E2 as <-. change (hdr_run ops (Some []) false) with true in E3. exists txt, c. exact (conj E1 E3).
+Qed.
+
+(* (1) on the model of DictWriter.write for an SDict source and of DictReader.read with all its options (Model/Parse.v:
+   write_sd, read_opts; order off, no scope): overwrite mode, or append mode when the target is not in the file tree.
+   An SDict source is always formatted with the default header, so the file read back holds exactly the new dict behind
+   the header entry; the placeholder counter is handed on unchanged by the write. *)
+Theorem C16_overwrite_reads_back_sd : forall fs target ap d count,
+  pv_ok d = true -> wdom (typed d) = true -> (Z.of_nat (nq (Dict (typed d))) <= 1000000)%Z -> (-1 <= count)%Z ->
+  (ap = false \/ fs_lookup (norm_path target) fs = None) ->
+  exists txt c',
+    Parse.write_sd fs false target ap false (st_plain d) count = Some (Ok (txt, count)) /\
+    txt = to_string_sd (st_plain (typed d)) /\
+    Parse.read_opts [(norm_path target, FNative txt)] target true false true [] count = Some (Ok (st_hdr (classified d), c')).
+Proof. exact overwrite_reads_back_sd. Qed.
+Print Assumptions C16_overwrite_reads_back_sd.
+
+Example C16_overwrite_reads_back_sd_nonvacuous :
+  let fs := [(norm_path C16_sq.pth, FNative (of_string "{{{ garbage"))] in
+  pv_ok C16_sq.d1 = true /\ wdom (typed C16_sq.d1) = true /\ (Z.of_nat (nq (Dict (typed C16_sq.d1))) <= 1000000)%Z /\
+  exists txt c',
+    Parse.write_sd fs false C16_sq.pth false false (st_plain C16_sq.d1) 41 = Some (Ok (txt, 41%Z)) /\
+    txt = native_header ++ C16_sq.t1 /\
+    Parse.read_opts [(norm_path C16_sq.pth, FNative txt)] C16_sq.pth true false true [] 41 = Some (Ok (st_hdr (classified C16_sq.d1), c')).
+Proof.
+  intros fs.
+  assert (H0 : pv_ok C16_sq.d1 = true) by (vm_compute; reflexivity).
+  assert (H1 : wdom (typed C16_sq.d1) = true) by (vm_compute; reflexivity).
+  assert (H2 : (Z.of_nat (nq (Dict (typed C16_sq.d1))) <= 1000000)%Z) by (vm_compute; discriminate).
+  refine (conj H0 (conj H1 (conj H2 _))).
+  destruct (C16_overwrite_reads_back_sd fs C16_sq.pth false C16_sq.d1 41%Z H0 H1 H2 ltac:(lia) (or_introl eq_refl)) as (txt & c' & W & Et & R).
+  exists txt, c'. refine (conj W (conj _ R)). rewrite Et. vm_compute. reflexivity.
+Qed.
